@@ -12,6 +12,12 @@ from sa import core  # noqa: E402
 NA_REASONS = {}
 
 
+def _kf_counts():
+  with open(os.path.join(HERE, "known_findings.json")) as f:
+    k = json.load(f)
+  return len(k["fixed"]), len(k["known"])
+
+
 def main():
   props = [json.loads(l) for l in open(os.path.join(HERE, "properties.jsonl"))]
   checks, na = [], []
@@ -70,8 +76,8 @@ def main():
                "never import or run it. Exit 2 (ANALYSIS-ERROR) means an "
                "anchor vanished or an idiom is outside the engine; it is "
                "neither a pass nor a violation. Genuine defects found are in "
-               "known_findings.json (17 fixed by 'fix:' commits, 10 keys "
-               "recorded as known).",
+               "known_findings.json (%d fixed by 'fix:' commits, %d keys "
+               "recorded as known)." % _kf_counts(),
   }
   with open(os.path.join(HERE, "MANIFEST.json"), "w") as f:
     json.dump(manifest, f, indent=1)
